@@ -620,6 +620,15 @@ FILL_OPS = frozenset(('fillna(str)', 'assign.bloc(frame)'))
 CELLWISE_RAISING = frozenset(('astype', 'op', 'neg', 'pos', 'abs', 'invert', 'round', 'clip'))
 
 
+def _has_multi_block_of(kinds, layout, kind):
+    pos = 0
+    for w, _ in layout:
+        if w > 1 and kinds[pos] == kind:
+            return True
+        pos += w
+    return False
+
+
 def _has_multi_object_block(kinds, layout):
     pos = 0
     for w, _ in layout:
@@ -676,8 +685,8 @@ def finding_for(name, kinds, n, layout):
         return 'C03-reduce-axis0-blockwise'
     if fam == 'reduce1' and name[:3] in ('all', 'any') and 'M' in kinds:
         return 'C03-reduce-axis0-blockwise'
-    if fam == 'reduce1' and m > 1 and len({column(k, 0, 0).dtype for k in kinds}) > 1 and _resolved_is_object({column(k, 0, 0).dtype for k in kinds}):
-        return 'C03-reduce-axis0-blockwise'        # the block-wise (composable) axis-1 path over columns whose row dtype is object
+    if name == 'min1-noskipna' and 'b' in kinds and _has_multi_block_of(kinds, layout, 'f'):
+        return 'C03-reduce-axis1-object-row'       # min(axis=1, skipna=False): bool columns (object row dtype) + a 2-D block of float columns holding NaN
     if name.startswith('bloc') and multi and n >= 2:
         return 'C03-bloc-order'
     if name.startswith(('fillna(L', 'fillna(U-partial', 'fillna(G+1000', 'assign.bloc(L)', 'fillna(frame-partial)')):
@@ -746,7 +755,7 @@ def short(o, limit=160):
 QUICK_KINDS = ['', 'i', 'f', 'U', 'O', 'b', 'ii', 'if', 'fO', 'UU', 'iii', 'iif', 'UUf', 'bbO', 'iiff', 'iUUi']
 THOROUGH_FRAMES = (
     [(k, (0, 1, 2, 3, 4)) for k in ['', 'i', 'f', 'U', 'O', 'b', 'M', 'h']]
-    + [(k, (0, 1, 3)) for k in ['ii', 'if', 'fO', 'UU', 'bb', 'OO', 'gg', 'hi']] + [('OM', (2,)), ('fgb', (2,)), ('fOO', (2,)), ('gggi', (1, 3)), ('iiif', (1, 3)), ('OOOi', (2,)), ('gggii', (2,)), ('uu', (1, 3)), ('SS', (1, 3)), ('mm', (1, 3)), ('ucu', (2,)), ('uuS', (3,)), ('mMm', (3,)), ('cc', (3,)), ('mi', (2,)), ('gfgf', (1, 3)), ('gff', (3,)), ('fgf', (3,)), ('ggfif', (3,))]
+    + [(k, (0, 1, 3)) for k in ['ii', 'if', 'fO', 'UU', 'bb', 'OO', 'gg', 'hi']] + [('OM', (2,)), ('fgb', (2,)), ('fOO', (2,)), ('gggi', (1, 3)), ('iiif', (1, 3)), ('OOOi', (2,)), ('gggii', (2,)), ('uu', (1, 3)), ('SS', (1, 3)), ('mm', (1, 3)), ('ucu', (2,)), ('uuS', (3,)), ('mMm', (3,)), ('cc', (3,)), ('mi', (2,)), ('gfgf', (1, 3)), ('gff', (3,)), ('fgf', (3,)), ('ggfif', (3,)), ('bff', (2, 3))]
     + [(k, (1, 3)) for k in ['iii', 'iif', 'fii', 'UUf', 'bbO', 'hhi', 'MMi', 'ggi', 'bib']]
     + [('iiii', (0, 1, 3))] + [(k, (1, 3)) for k in ['iiff', 'iUUi', 'OOii']] + [(k, (3,)) for k in ['ifif', 'ffff', 'fiib', 'hhgg']]
     + [('iiiii', (3,)), ('iifff', (3,)), ('ifbUO', (1,))])
@@ -757,7 +766,7 @@ ALL_KINDS = 'ihgfbUOM'
 QUICK_FRAMES = [('', (0, 1, 3)), ('i', (0, 1, 3)), ('f', (0, 1, 3)), ('U', (0, 2)), ('O', (1, 3)), ('ii', (0, 1, 3)), ('if', (0, 3)),
                 ('UU', (3,)), ('fO', (2,)), ('iii', (3,)), ('iif', (2,)), ('bbO', (3,)), ('iiff', (3,)), ('iUUi', (2,)),
                 ('hi', (2,)), ('OM', (2,)), ('fgb', (2,)), ('fOO', (2,)), ('gggi', (2,)), ('iiif', (2,)), ('uu', (3,)), ('SS', (3,)), ('mm', (3,)),
-                ('ucu', (2,)), ('bb', (1, 3)), ('mi', (2,)), ('gfgf', (3,)), ('gff', (3,)), ('iiii', (3,))]
+                ('ucu', (2,)), ('bb', (1, 3)), ('mi', (2,)), ('gfgf', (3,)), ('gff', (3,)), ('bff', (2,)), ('iiii', (3,))]
 
 
 def frame_space(ctx):
@@ -832,6 +841,9 @@ def layout_cases(ctx, kinds, n):
                 if fid:
                     tags['finding'] = fid
                 _TAGS[(fam, fid)] = tags
+            if fid == 'C03-reduce-axis1-object-row':
+                # the finding excuses only the recorded kind of outcome: both layouts return a Series, some VALUES differ
+                tags = dict(tags, outcome=('value' if (o[0] != 'X' and r[0] != 'X' and strip_dtypes(o)[:3] == strip_dtypes(r)[:3]) else 'other'))
             if py_fail or fid:
                 desc = {'kinds': kinds, 'rows': n, 'layout': ls, 'op': name, 'observed': short(o, 100),
                         'replay': (f"from sfv.props.c03 import build, ops_for; dict(ops_for({kinds!r},{n}))[{name!r}](build({kinds!r},{n},{lay!r}))"
